@@ -272,3 +272,136 @@ DEFAULT_VALUES = ["'hi'", "1", "true", "null", "x", "[1, 2]", "{ a: 1 }", "() =>
 
 # ------------------------------------------------------------------------------------------------ C19 emits
 EVENTS = ["foo", "bar", "update:modelValue", "my-event", "x", "change"]
+
+
+def c16_case(r, i):
+    tg = TypeGen(r)
+    props = tg.random_map()
+    ty = tg.encode(props)
+    scope = r.wpick([(None, 6), ("function", 2), ("block", 1)])
+    call = "const C%d = defineComponent((props: %s) => {});" % (i, ty)
+    return wrap_module(tg, call, scope=scope), tg.used
+
+
+UNRESOLVABLE = ["import type { Ext } from './ext';\nconst C = defineComponent((props: Ext) => {});",
+                "import { Ext } from './ext';\nconst C = defineComponent((props: Ext & { a: string }) => {});",
+                "type K = { a: string };\nconst C = defineComponent((props: keyof K) => {});",
+                "type G<T> = { v: T };\nconst C = defineComponent((props: G<string>) => {});",
+                "const C = defineComponent((props: Record<string, number>) => {});",
+                "const C = defineComponent((props: Readonly<{ a: string }>) => {});",
+                "const C = defineComponent((props: string) => {});",
+                "const C = defineComponent((props: typeof dflt) => {});",
+                "const C = defineComponent((props: NS.Props) => {});",
+                "const C = defineComponent((props: Missing) => {});",
+                "type A = { a: string };\nconst C = defineComponent((props: Pick<A, keyof A>) => {});",
+                "interface I extends Ext2 { a: string }\nimport type { Ext2 } from './e';\nconst C = defineComponent((props: I) => {});"]
+
+
+def c17_case(r, i):
+    tg = TypeGen(r)
+    eg = ExprGen(r, tg)
+    n = 1 + r.below(4)
+    members = []
+    for j in range(n):
+        members.append("p%d%s: %s" % (j, "?" if r.chance(0.3) else "", eg.expr()))
+    call = "const C%d = defineComponent((props: { %s }) => {});" % (i, "; ".join(members))
+    return wrap_module(tg, call, imports="import { defineComponent } from 'vue';\nclass Foo {}\n"), tg.used
+
+
+def c18_case(r, i):
+    tg = TypeGen(r)
+    props = tg.random_map(2 + r.below(3))
+    for p in props:
+        p.optional = True if p.kind != "getter" else False
+        if r.chance(0.3):
+            p.ty = r.pick(["() => void", "Function", "(() => void) | string", "string", "number"])
+    ty = tg.literal(props) if r.chance(0.7) else tg.encode(props, allow_after=False)
+    entries = []
+    dyn = r.wpick([("static", 7), ("ident", 1), ("spread", 1), ("computed-ident", 1), ("computed-expr", 1)])
+    for p in props:
+        if r.chance(0.25):
+            continue
+        key = p.key()
+        form = r.wpick([("kv", 6), ("method", 2), ("getter", 1), ("shorthand", 1), ("async", 1), ("computed-lit", 1), ("quoted", 1)])
+        val = r.pick(DEFAULT_VALUES)
+        if form == "kv":
+            entries.append("%s: %s" % (key, val))
+        elif form == "quoted":
+            entries.append("'%s': %s" % (p.name, val))
+        elif form == "computed-lit":
+            entries.append("['%s']: %s" % (p.name, val))
+        elif form == "method":
+            entries.append("%s() { return 1 }" % key)
+        elif form == "async":
+            entries.append("async %s() { return 1 }" % key)
+        elif form == "getter":
+            entries.append("get %s() { return x }" % key)
+        elif form == "shorthand" and key == p.name and p.name.isidentifier():
+            entries.append(p.name)
+        else:
+            entries.append("%s: %s" % (key, val))
+    if r.chance(0.2):
+        entries.append("extraKey: 1")
+    if dyn == "static":
+        d = "{ " + ", ".join(entries) + " }"
+    elif dyn == "ident":
+        d = "dflt"
+    elif dyn == "spread":
+        d = "{ " + ", ".join(entries + ["...dflt"]) + " }"
+    elif dyn == "computed-ident":
+        d = "{ " + ", ".join(entries + ["[k]: 1"]) + " }"
+    else:
+        d = "{ " + ", ".join(entries + ["['fo' + 'o']: 1"]) + " }"
+    pre = "const foo = 1, bar = 2, baz = 3, qux = 4, v = 5, title = 't', camelCase = 0, x = 1, a = 1, b = 2;\n"
+    call = pre + "const C%d = defineComponent((props: %s = %s) => {});" % (i, ty, d)
+    return wrap_module(tg, call), tg.used
+
+
+def c19_case(r, i):
+    tg = TypeGen(r)
+    n = 1 + r.below(3)
+    evs = []
+    pool = list(EVENTS)
+    for _ in range(n):
+        evs.append(pool.pop(r.below(len(pool))))
+
+    def enc(names, d=0):
+        k = r.wpick([("fn", 3), ("fn-union-lit", 2), ("union-of-fn", 2), ("callsig-lit", 3), ("iface", 3), ("iface-extends", 2), ("props", 2), ("alias", 2),
+                     ("lit-alias", 2), ("intersection", 1), ("exported", 1)] if d < 3 else [("callsig-lit", 1)])
+        tg.used["emits:" + k] += 1
+        lit = " | ".join("'%s'" % x for x in names)
+        if k == "fn-union-lit":
+            return "(e: %s, ...args: any[]) => void" % lit
+        if k == "fn":
+            return " | ".join("((e: '%s') => void)" % x for x in names) if len(names) > 1 else "(e: '%s', v: number) => void" % names[0]
+        if k == "union-of-fn":
+            return " | ".join("((e: '%s') => void)" % x for x in names)
+        if k == "callsig-lit":
+            return "{ " + "; ".join("(e: '%s'): void" % x for x in names) + " }"
+        if k == "iface":
+            nme = tg.fresh("EI")
+            tg.place("interface %s { %s }" % (nme, "; ".join("(e: '%s'): void" % x for x in names)))
+            return nme
+        if k == "iface-extends" and len(names) >= 2:
+            nme, b = tg.fresh("EE"), tg.fresh("EB")
+            tg.place("interface %s { (e: '%s'): void }" % (b, names[0]))
+            tg.place("interface %s extends %s { %s }" % (nme, b, "; ".join("(e: '%s'): void" % x for x in names[1:])))
+            return nme
+        if k == "props":
+            return "{ " + "; ".join("%s: [v: number]" % (x if x.isidentifier() else "'%s'" % x) for x in names) + " }"
+        if k in ("alias", "exported"):
+            nme = tg.fresh("EA")
+            tg.place("%stype %s = %s;" % ("export " if k == "exported" else "", nme, enc(names, d + 1)))
+            return nme
+        if k == "lit-alias":
+            nme = tg.fresh("EL")
+            tg.place("type %s = %s;" % (nme, lit))
+            return "(e: %s) => void" % nme
+        if k == "intersection" and len(names) >= 2:
+            return "%s & %s" % (enc(names[:1], d + 1), enc(names[1:], d + 1))
+        return "{ " + "; ".join("(e: '%s'): void" % x for x in names) + " }"
+
+    ty = enc(evs)
+    second = r.wpick([("ctx: SetupContext<%s>" % ty, 6), ("{ emit }: SetupContext<%s>" % ty, 2), ("ctx: { emit: any }", 1), ("ctx", 1)])
+    call = "const C%d = defineComponent((props: { a: string }, %s) => {});" % (i, second)
+    return wrap_module(tg, call), tg.used
